@@ -16,7 +16,7 @@ CLAIMED = {
     "C02": (
         "runtime monitoring: trace/reference monitor comparing the Params seen by Match and by handlers with all decompositions found by an independent backtracking matcher; cache hit vs miss comparison",
         "For every selected route the observed parameter map must be one of the decompositions of the normalised path under the pattern AST (which implies key set, round trip and class satisfaction; equality when unique), static routes expose none, handler view equals Match view, cache hits equal misses.",
-        "Trusted: the AST matcher; handlers do not mutate Params; ambiguous decompositions (spanning classes) are only checked for membership.",
+        "Trusted: the AST matcher; a handler may edit its own Params map in place (it is checked that this never reaches another request or a later Match); ambiguous decompositions (spanning classes) are only checked for membership.",
         "DESIGN.md section 4 C02",
     ),
     "C03": (
